@@ -62,7 +62,10 @@ class Prop(core.Prop):
             return [ioapi_u.recipe(nt=3, nl=3, nr=3, nc=3, nv=2, start=0, tstep=10000),
                     ioapi_u.recipe(nt=3, nl=2, nr=2, nc=3, nv=1, start=1, tstep=3000),
                     ioapi_u.recipe(nt=3, nl=2, nr=3, nc=2, nv=1, start=2, tstep=240000),
-                    ioapi_u.recipe(nt=2, nl=1, nr=1, nc=2, nv=1, start=5, tstep=10000)]
+                    ioapi_u.recipe(nt=2, nl=1, nr=1, nc=2, nv=1, start=5, tstep=10000),
+                    # a step with seconds (7 min 30 s) and a file whose time flags are not evenly spaced
+                    ioapi_u.recipe(nt=4, nl=1, nr=2, nc=2, nv=1, start=0, tstep=730),
+                    dict(ioapi_u.recipe(nt=5, nl=1, nr=2, nc=2, nv=1, start=3, tstep=10000), uneven=True)]
         out = []
         for shape in ((3, 3, 3, 3), (3, 2, 2, 3), (2, 1, 1, 2)):
             for start in range(len(ioapi_u.STARTS)):
@@ -71,6 +74,10 @@ class Prop(core.Prop):
                         continue
                     out.append(ioapi_u.recipe(nt=shape[0], nl=shape[1], nr=shape[2], nc=shape[3],
                                               nv=1, start=start, tstep=tstep))
+        for start in (0, 2, 3):
+            out.append(ioapi_u.recipe(nt=4, nl=1, nr=2, nc=2, nv=1, start=start, tstep=730))
+            out.append(ioapi_u.recipe(nt=4, nl=1, nr=2, nc=2, nv=1, start=start, tstep=130))
+            out.append(dict(ioapi_u.recipe(nt=5, nl=1, nr=2, nc=2, nv=1, start=start, tstep=10000), uneven=True))
         return out
 
     def groups(self, tier):
@@ -95,7 +102,10 @@ class Prop(core.Prop):
         for combo in itertools.product(*axes):
             yield {'ioapi': rec, 'win': [[d, list(w[0]), w[1], w[2]]
                                          for d, w in zip(group['dims'], combo)]}
-            if 'TSTEP' in group['dims'] and len(group['dims']) <= 2 and all(w[0][0] != 'I' for w in combo):
+            if 'TSTEP' in group['dims'] and len(group['dims']) <= 2 and all(w[0][0] != 'I' for w in combo) \
+                    and not rec.get('uneven'):
+                # (not for unevenly spaced files: a stale TFLAG has to be rebuilt from SDATE/TSTEP, which
+                # cannot describe uneven records)
                 # the same window on a file to which a variable was added by hand beforehand
                 yield {'ioapi': rec, 'added': True, 'win': [[d, list(w[0]), w[1], w[2]]
                                                             for d, w in zip(group['dims'], combo)]}
@@ -109,6 +119,15 @@ class Prop(core.Prop):
             v[...] = 2.5
         sdate, stime = ioapi_u.STARTS[rec['start']]
         exp_times = rtime.ioapi_times(sdate, stime, rec['tstep'], rec['nt'])
+        if rec.get('uneven'):
+            # records that are not evenly spaced (steps 0, 1, 2, 26, 27 hours after the start: a day is missing)
+            allt = rtime.ioapi_times(sdate, stime, rec['tstep'], 30)
+            exp_times = [allt[k] for k in (0, 1, 2, 26, 27)[:rec['nt']]]
+            tf = f.variables['TFLAG']
+            for i, t in enumerate(exp_times):
+                d_, h_ = rtime.to_ioapi(t)
+                tf[i, :, 0] = d_
+                tf[i, :, 1] = h_
         src = {k: getattr(f, k) for k in ('XORIG', 'YORIG', 'XCELL', 'YCELL', 'TSTEP')}
         src_vg = np.array(f.VGLVLS)
         vs = []
@@ -122,7 +141,7 @@ class Prop(core.Prop):
             win[d] = (a, b)
         sig = ('sliceDimensions', '+'.join(sorted(c.split(':')[0] for c in cls)))
         scope = {'dims': '+'.join(sorted(win)), 'selkinds': '+'.join(sorted(cls)),
-                 'tstep': rec['tstep'], 'added': bool(case.get('added'))}
+                 'tstep': rec['tstep'], 'added': bool(case.get('added')), 'uneven': bool(rec.get('uneven'))}
         try:
             g = f.sliceDimensions(**kw)
         except Exception as e:
@@ -157,7 +176,7 @@ class Prop(core.Prop):
         if int(g.SDATE) != ws or int(g.STIME) != wt:
             vs.append(viol('sdate-stime', sig, 'SDATE,STIME=%r,%r expected %d,%d'
                            % (g.SDATE, g.STIME, ws, wt), **scope))
-        if int(g.TSTEP) != int(src['TSTEP']):
+        if int(g.TSTEP) != int(src['TSTEP']) and not rec.get('uneven'):
             vs.append(viol('tstep-changed', sig, 'TSTEP=%r expected %r (window of %d steps)'
                            % (g.TSTEP, src['TSTEP'], b - a), nsteps=b - a, **scope))
         nontriv = any((b_ - a_) < {'TSTEP': rec['nt'], 'LAY': rec['nl'], 'ROW': rec['nr'],
